@@ -5,6 +5,7 @@ package ugo
 import (
 	"bufio"
 	"encoding/json"
+	"errors"
 	"fmt"
 	"os"
 	"sync"
@@ -77,6 +78,25 @@ func (vm *VM) VerifSnapshot() VerifSnap {
 	s.Pool = len(vm.pool.vms)
 	vm.pool.mu.Unlock()
 	return s
+}
+
+// VerifExitKind classifies how the last Run ended: "ok", "abort", "overflow"
+// (stack overflow, which no handler intercepts), "error" (a thrown
+// *RuntimeError that no handler caught) or "fatal" (any other Go error).
+func (vm *VM) VerifExitKind() string {
+	switch err := vm.err; {
+	case err == nil:
+		return "ok"
+	case errors.Is(err, ErrVMAborted):
+		return "abort"
+	case errors.Is(err, ErrStackOverflow):
+		return "overflow"
+	default:
+		if _, ok := err.(*RuntimeError); ok {
+			return "error"
+		}
+		return "fatal"
+	}
 }
 
 // VerifRoot returns the root VM of the pool tree vm belongs to.
@@ -181,8 +201,12 @@ func init() {
 				a = a<<8 | int(fn.Instructions[ip+1+k])
 			}
 		}
+		nx := ip + 1
+		for _, k := range OpcodeOperands[op] {
+			nx += k
+		}
 		enc.Encode(map[string]any{"ev": "step", "vm": vmid(vm), "fn": id, "fi": fi, "ip": ip,
-			"op": OpcodeNames[op], "a": a, "sp": sp, "nh": nh})
+			"op": OpcodeNames[op], "a": a, "nx": nx, "sp": sp, "nh": nh})
 	}
 	VerifSyncFn = func(vm *VM, point string) {
 		if point != "run.enter" && point != "run.exit" {
@@ -190,7 +214,7 @@ func init() {
 		}
 		mu.Lock()
 		defer mu.Unlock()
-		enc.Encode(map[string]any{"ev": point, "vm": vmid(vm), "err": vm.err != nil})
+		enc.Encode(map[string]any{"ev": point, "vm": vmid(vm), "kind": vm.VerifExitKind()})
 		if point == "run.exit" {
 			w.Flush()
 		}
